@@ -62,11 +62,13 @@ theorem ensure_good (cfg : Cfg) (m : Mem) (b : Bytes) (h : C09.Inv m) :
   split
   · exact ⟨h, by intro s; simp⟩
   · split
-    · have := createBucket_preserves m b h
-      cases hc : m.createBucket b with
-      | mk m' r =>
-        rw [hc] at this
-        cases r <;> exact ⟨this, by intro s; simp⟩
+    · split
+      · exact ⟨h, by intro s; simp⟩
+      · have := createBucket_preserves m b h
+        cases hc : m.createBucket b with
+        | mk m' r =>
+          rw [hc] at this
+          cases r <;> exact ⟨this, by intro s; simp⟩
     · exact ⟨h, by intro s; simp⟩
 
 /-- a handler run after `ensureBucketExists` is good if its body is good on every good store -/
